@@ -128,7 +128,11 @@ def run(chk: core.Check, replay=None) -> None:
             # the statement fixes no direction (on an inclined line of fire the drag direction effect outweighs the
             # time-of-flight effect on drop): head and tail wind must move each quantity in OPPOSITE senses
             opp = lambda a_, b_, c_: (a_ - c_) * (b_ - c_) < 0
-            pair(res["tail"], "C12.Signs", same_d and opp(t["tail"], t["head"], t0) and opp(h["tail"], h["head"], h0),
+            # ... and the drop only on a level line of fire: on an inclined one the drag-direction effect (the air-relative
+            # velocity is steeper / flatter than the ground velocity) competes with the time-of-flight effect and both
+            # winds can raise the impact (1124 fps, 4 deg look angle, 25 fps: +0.005 in and +0.1 in)
+            level = sc["shot"]["look_deg"] == 0.0
+            pair(res["tail"], "C12.Signs", same_d and opp(t["tail"], t["head"], t0) and (not level or opp(h["tail"], h["head"], h0)),
                  what="head and tail winds move drop and time of flight in opposite senses", partner=none["tid"])
     by_tid = loopsuite.validate(chk, "C12", outs, pairs)
     for o in outs:
